@@ -380,6 +380,26 @@ def _same_but_time(got, want):
     return got[:i + 2] == want[:i + 2] and got[i + 6:] == want[i + 6:]
 
 
+# ------------------------------------------------------------------------------------ O2.5 export / import stability
+@ob('O2.5', 'a signature PGPy made still hashes to the signed octets after binary export and re-import (also when verified twice), '
+            'for text-valued hashed subpackets with arbitrary characters', 'policy URI and notation value of 0..1 symbolic characters each (all of Unicode); document of 0..1 symbolic octets',
+    cond_timeout={'q': 280, 't': 900}, partitions=[['len(uri) == %d' % a, 'len(nval) == %d' % b] for a in range(2) for b in range(2)])
+def export_import_stable(doc: bytes, uri: str, nval: str) -> bool:
+    """
+    pre: len(doc) <= 1
+    pre: len(uri) <= 1 and len(nval) <= 1
+    post: _
+    """
+    Oracle.reset()
+    sig = KEY.sign(doc, created=T0, hash=HashAlgorithm.SHA256, policy_uri=uri, notation={'n': nval})
+    signed = signed_octets()
+    wire = sig.__bytes__()
+    rx = PGPSignature.from_blob(wire)
+    first = bytes(rx.hashdata(doc))
+    second = bytes(rx.hashdata(doc))
+    return first == signed and second == signed and rx.__bytes__() == wire
+
+
 # ------------------------------------------------------------------------------------ O2.3 left 16 bits
 class Rec:
     last = None
@@ -473,6 +493,6 @@ SANITY = ['hd_doc(0, b"ab\\n")', 'hd_doc(1, b"a\\nb\\r\\n")', 'hd_doc(1, b"\\n\\
           'opt_thirdparty_revoke(0, 1, 120, "x", True, True, 0, "")', 'opt_thirdparty_revoke(0, 0, 0, "", False, False, 0, "")',
           'opt_thirdparty_revoke(1, 0, 0, "", False, False, 2, "c\\u00e9")',
           'opt_keyops(0, 0, 1)', 'opt_keyops(1, 0, 1)', 'opt_keyops(2, 3, 1)', 'opt_keyops(3, 1, 1)', 'opt_keyops(4, 0, 2)', 'opt_keyops(4, 0, 12)',
-          'left16(b"abc")', 'left16(b"")',
+          'export_import_stable(b"d", "\\u00e9", "v")', 'export_import_stable(b"", "", "\\u20ac")', 'left16(b"abc")', 'left16(b"")',
           'sig_integers(22, 0, 0, 0, 0, 2, 0, 0)', 'sig_integers(22, 3, 1, 0, 2, 3, 0, 0)', 'sig_integers(1, 0, 0, 0, 0, 0, 0, 65537)',
           'sig_integers(1, 0, 0, 0, 0, 0, 0, 255)']
